@@ -8,10 +8,10 @@ COQ_AGREE = 'C03_agree'
 COQ_MODEL_TARGETS = ['Model/C03_Model']
 RULE = ('grid over (N, batch_size, buckets) + random large N + datasets obtained by slicing a larger parent '
         '(d[a:b:c]: prefixes, suffixes, negative bounds, steps, reversed, empty, full); three call forms (hparams object, '
-        'keywords, hparams object overridden by keywords); features of 5 dtypes / trailing shapes, '
+        'keywords, hparams object overridden by keywords); features of 9 dtypes / trailing shapes (int32, uint8[.,3,2], float16, bool, object, S4, U3, datetime64[D], complex64), '
         'preprocessor chains of length 0..2; non-trivial = N > 0 (at least one batch); distinct = distinct case JSON')
 TRUSTED = ['numpy slicing / np.zeros / np.arange / slice-store semantics as read by Common/NpArr.v (exercised by the correspondence)',
-           'per-dtype behaviour of np.zeros(shape, dtype) (rows are abstract in Coq; judged by the oracle on 5 feature kinds)']
+           'per-dtype behaviour of np.zeros(shape, dtype) (rows are abstract in Coq; judged by the oracle on 9 feature kinds incl. fixed-width bytes / unicode, datetime64, complex64)']
 ASSUMPTIONS = ['batch preprocessors are per-example (row-wise) functions, as the property states',
                'batch_size >= 1 and buckets >= 1 (batch_size = 0 raises in range())']
 CASE_TIMEOUT = 20
@@ -98,6 +98,11 @@ def _dataset(case):
       'h': (np.arange(n) + 1).astype(np.float16),
       'flag': np.ones((n,), dtype=np.bool_),
       'obj': np.array([b'r%d' % i for i in range(n)], dtype=object),
+      # fixed-width string / datetime / complex columns: their zero value is b'' / '' / epoch / 0j, not "0"
+      's4': np.array([b'r%d' % (i % 1000) for i in range(n)], dtype='S4'),
+      'u3': np.array(['u%d' % (i % 100) for i in range(n)], dtype='U3'),
+      'day': (np.arange(n) + 11000).astype('datetime64[D]'),
+      'cplx': ((np.arange(n) + 1) + 2j).astype(np.complex64),
   }
   fns = [lambda e: {**e, 'y': e['x'] * 3 + 1}, lambda e: {**e, 'y': e['y'] * e['y'], 'z': e['h'] + 1}][:case['chain']]
   pre = fedjax.BatchPreprocessor(fns)
@@ -186,6 +191,10 @@ def _features_follow(b, x, mask, case):
       'h': ((xi + 1).astype(np.float16), np.float16, ()),
       'flag': (np.ones(n, bool), np.bool_, ()),
   }
+  exp['s4'] = (np.array([b'r%d' % (int(i) % 1000) for i in xi], dtype='S4').reshape(n), np.dtype('S4'), ())
+  exp['u3'] = (np.array(['u%d' % (int(i) % 100) for i in xi], dtype='U3').reshape(n), np.dtype('U3'), ())
+  exp['day'] = ((xi + 11000).astype('datetime64[D]'), np.dtype('datetime64[D]'), ())
+  exp['cplx'] = (((xi + 1) + 2j).astype(np.complex64), np.complex64, ())
   if case['chain'] >= 1:
     exp['y'] = ((xi * 3 + 1).astype(np.int32), np.int32, ())
   if case['chain'] >= 2:
@@ -201,7 +210,9 @@ def _features_follow(b, x, mask, case):
       return False
     if not np.array_equal(a[real], v[real]):
       return False
-    if mask is not None and np.any(a[~real] != 0):
+    # padded rows hold the dtype's own zero value (0, False, b'', '', epoch, 0j): what np.zeros gives
+    pad = a[~real]
+    if mask is not None and not np.array_equal(pad, np.zeros(pad.shape, dt)):
       return False
   o = b['obj']
   if o.dtype != object or o.shape != (n,):
